@@ -196,6 +196,9 @@ func runC02(c *Ctx) {
 		}
 	}
 
+	c.Rule("C02-D5", "upgrade keeps order: the packets still queued on the old transport are re-sent on the new one inside the write-locked swap region, and the UPGRADE packet is sent inside it (shared with C07-D2) — a Send that slips in between would overtake earlier packets", 12)
+	swapRegion(c, "C02-D5")
+
 	c.Rule("C02-D4", "no goroutine hop on the receive path: no `go` statement lies on a call path from onEIOPacket (server/client) to (*eventHandler).call — handler entry order equals arrival order", 2)
 	goHops(c, "C02-D4")
 }
